@@ -458,6 +458,48 @@ func runC18(w *vx.W) {
 		}
 	}
 
+	// (D) a source together with an explicitly transmitted destination that holds another value, in both field
+	// orders: a valid source wins (the destination receives the bit slice), an invalid source leaves the
+	// transmitted destination alone
+	type sd struct {
+		mesg     uint16
+		src      c18Field
+		dst      c18Field
+		srcValid bool
+	}
+	var sds []sd
+	for _, v := range []uint64{0x01F4, 0xFFFF} {
+		sds = append(sds,
+			sd{20, fU("Altitude", 2, v), fU("EnhancedAltitude", 4, 0x00012345), v != 0xFFFF},
+			sd{20, fU("Speed", 2, v), fU("EnhancedSpeed", 4, 0x00023456), v != 0xFFFF})
+		for _, m := range []uint16{19, 18} {
+			sds = append(sds,
+				sd{m, fU("AvgSpeed", 2, v), fU("EnhancedAvgSpeed", 4, 0x00034567), v != 0xFFFF},
+				sd{m, fU("MaxAltitude", 2, v), fU("EnhancedMaxAltitude", 4, 0x00045678), v != 0xFFFF})
+		}
+		sds = append(sds, sd{142, fU("MinAltitude", 2, v), fU("EnhancedMinAltitude", 4, 0x00056789), v != 0xFFFF})
+		sds = append(sds, sd{21, fU("Data16", 2, v), fU("Data", 4, 0x0A0B0C0D), v != 0xFFFF})
+	}
+	sds = append(sds,
+		sd{20, fB("CompressedSpeedDistance", 0xF4, 0x31, 0x02), fU("Speed", 2, 0x1388), true},
+		sd{20, fB("CompressedSpeedDistance", 0xFF, 0xFF, 0xFF), fU("Speed", 2, 0x1388), false})
+	for _, x := range sds {
+		for _, ft := range containersOf(x.mesg) {
+			for order := 0; order < 2; order++ {
+				for _, big := range []bool{false, true} {
+					if !mine() {
+						continue
+					}
+					fs := []c18Field{x.src, x.dst}
+					if order == 1 {
+						fs = []c18Field{x.dst, x.src}
+					}
+					do(fmt.Sprintf("%v %s (valid=%v) with %s also transmitted, order %d", fit.MesgNum(x.mesg), x.src.Name, x.srcValid, x.dst.Name, order), ft, big, [][]c18Msg{{{x.mesg, fs}}}, false, "D:source-and-transmitted-destination")
+				}
+			}
+		}
+	}
+
 	// (B) words over record variants (activity file)
 	type rv struct {
 		d12 uint32
